@@ -16,6 +16,7 @@ package c13
 import (
 	"fmt"
 	"math"
+	"math/big"
 
 	"github.com/zclconf/go-cty/cty"
 
@@ -204,6 +205,40 @@ func corpus() []corpusCase {
 		cc("contains", fails, sV("abc"), sV("a")),
 		cc("contains", fails, the4, cty.NullVal(cty.String)),
 		cc("contains", fails, cty.NullVal(cty.List(cty.String)), sV("a")),
+	)
+
+	// empty collections of every element type, cty.DynamicPseudoType included (what an empty collection made from
+	// untyped input is): no member equals anything
+	for _, e := range []cty.Value{cty.ListValEmpty(cty.DynamicPseudoType), cty.SetValEmpty(cty.DynamicPseudoType), cty.SetValEmpty(cty.String),
+		cty.SetValEmpty(cty.EmptyObject), cty.ListValEmpty(cty.List(cty.DynamicPseudoType)), cty.SetValEmpty(cty.List(cty.DynamicPseudoType)),
+		cty.SetValEmpty(cty.Object(map[string]cty.Type{"a": cty.DynamicPseudoType}))} {
+		for _, needle := range []cty.Value{sV("a"), nI(1), cty.True, cty.EmptyObjectVal, lV(sV("a")), cty.EmptyTupleVal, cty.ListValEmpty(cty.DynamicPseudoType)} {
+			add(cc("contains", want(cty.False), e, needle))
+		}
+	}
+	add(
+		cc("contains", want(cty.False), stV(lV(cty.True)), cty.ListValEmpty(cty.DynamicPseudoType)),
+		cc("contains", want(cty.False), lV(cty.ListValEmpty(cty.Bool)), cty.ListValEmpty(cty.DynamicPseudoType)),
+		cc("length", want(nI(0)), cty.ListValEmpty(cty.DynamicPseudoType)),
+		cc("length", want(nI(0)), cty.SetValEmpty(cty.DynamicPseudoType)),
+		cc("length", want(nI(0)), cty.MapValEmpty(cty.DynamicPseudoType)),
+		cc("keys", want(cty.ListValEmpty(cty.String)), cty.MapValEmpty(cty.DynamicPseudoType)),
+		cc("values", want(cty.ListValEmpty(cty.DynamicPseudoType)), cty.MapValEmpty(cty.DynamicPseudoType)),
+		cc("lookup", want(sV("d")), cty.MapValEmpty(cty.DynamicPseudoType), sV("a"), sV("d")),
+		cc("hasindex", want(cty.False), cty.ListValEmpty(cty.DynamicPseudoType), nI(0)),
+		cc("hasindex", want(cty.False), cty.MapValEmpty(cty.DynamicPseudoType), sV("a")),
+		cc("index", fails, cty.ListValEmpty(cty.DynamicPseudoType), nI(0)),
+		cc("element", fails, cty.ListValEmpty(cty.DynamicPseudoType), nI(0)),
+		cc("flatten", want(cty.EmptyTupleVal), cty.ListValEmpty(cty.DynamicPseudoType)),
+		cc("flatten", want(cty.EmptyTupleVal), cty.SetValEmpty(cty.DynamicPseudoType)),
+		cc("reverselist", want(cty.ListValEmpty(cty.DynamicPseudoType)), cty.ListValEmpty(cty.DynamicPseudoType)),
+		cc("reverselist", want(cty.ListValEmpty(cty.DynamicPseudoType)), cty.SetValEmpty(cty.DynamicPseudoType)),
+		cc("distinct", want(cty.ListValEmpty(cty.DynamicPseudoType)), cty.ListValEmpty(cty.DynamicPseudoType)),
+		cc("slice", want(cty.ListValEmpty(cty.DynamicPseudoType)), cty.ListValEmpty(cty.DynamicPseudoType), nI(0), nI(0)),
+		cc("chunklist", want(cty.ListValEmpty(cty.List(cty.DynamicPseudoType))), cty.ListValEmpty(cty.DynamicPseudoType), nI(2)),
+		cc("zipmap", want(cty.MapValEmpty(cty.DynamicPseudoType)), cty.ListValEmpty(cty.String), cty.ListValEmpty(cty.DynamicPseudoType)),
+		cc("coalescelist", want(lV(sV("a"))), cty.ListValEmpty(cty.DynamicPseudoType), lV(sV("a"))),
+		cc("merge", want(cty.MapValEmpty(cty.DynamicPseudoType)), cty.MapValEmpty(cty.DynamicPseudoType)),
 	)
 
 	// ---- keys / values (TestKeys, TestValues) ----
@@ -459,6 +494,21 @@ func corpus() []corpusCase {
 		cc("range", want(cty.ListValEmpty(cty.Number)), cty.NumberVal(pow2(40)), cty.NumberVal(pow2(40)), nI(-3)),
 	)
 
+	// steps that are not short binary fractions: the elements are the RUNNING sums (each rounded to the operands'
+	// precision), written here as the float64 running sums every float-arithmetic text shows
+	add(
+		cc("range", want(lV(nF(0), nF(0.1), nF(0.2), nF(0.30000000000000004), nF(0.4), nF(0.5), nF(0.6), nF(0.7), nF(0.7999999999999999), nF(0.8999999999999999), nF(0.9999999999999999))), nF(0), nF(1), nF(0.1)),
+		cc("range", want(lV(nF(1), nF(0.9), nF(0.8), nF(0.7000000000000001), nF(0.6000000000000001), nF(0.5000000000000001), nF(0.40000000000000013), nF(0.30000000000000016), nF(0.20000000000000015), nF(0.10000000000000014), nF(1.3877787807814457e-16))), nF(1), nF(0), nF(-0.1)),
+		cc("range", want(lV(nF(0.1), nF(0.30000000000000004), nF(0.5), nF(0.7), nF(0.8999999999999999))), nF(0.1), nF(1), nF(0.2)),
+		cc("range", nil, nP("0"), nP("1"), nP("0.1")),
+		cc("range", nil, nP("1"), nP("0"), nP("-0.1")),
+		cc("range", nil, nP("0"), nP("2"), nP("0.3")),
+		cc("range", nil, nP("0.7"), nP("3"), nP("0.7")),
+		cc("range", nil, nI(0), nP("102.4"), nP("0.1")),
+		cc("range", nil, nF(0), nF(102.4), nF(0.1)),
+		cc("range", nil, nF(0), nF(102.5), nF(0.1)),
+	)
+
 	// ---- coalesce (TestCoalesce) ----
 	add(
 		cc("coalesce", want(cty.True), cty.True),
@@ -583,7 +633,98 @@ func runCorpus(c *core.Ctx, base int64) {
 		c.Count("input:corpus")
 		checkCase(c, idx, fd, e.args, e.fx)
 	}
+	for k, fh := range fixedHistories() {
+		idx := base + 100_000 + int64(k)
+		if !c.Want(idx) {
+			continue
+		}
+		c.Count("input:corpus-history")
+		runFixedHistory(c, idx, fh)
+	}
 	enumerate(c, base+1_000_000_000)
+}
+
+// A fixedHistory is a scripted sequence of calls over shared values: step i calls fn on the
+// values with the given indices; an index < 0 stands for the result of step -index (1-based).
+type histStep struct {
+	fn   string
+	args []int
+}
+type fixedHistory struct {
+	vals  []cty.Value
+	steps []histStep
+}
+
+func hs(fn string, args ...int) histStep { return histStep{fn: fn, args: args} }
+
+// fixedHistories: for every function that walks, copies or rebuilds its arguments, a call followed by
+// reads of the same argument values (and of the result) through other functions, and the call again.
+func fixedHistories() []fixedHistory {
+	defaults := func() cty.Value { return oV("name", sV("web"), "size", sV("small")) }
+	overrides := func() cty.Value { return oV("size", nI(3), "zones", lV(strs("a", "b")...)) }
+	unsorted := func() cty.Value { return lV(strs("c", "a", "b", "a", "")...) }
+	return []fixedHistory{
+		// merge, then the first / second argument again through every map reader
+		{[]cty.Value{defaults(), overrides(), sV("zones"), sV("size"), sV("none"), oV("name", sV("db"))},
+			[]histStep{hs("merge", 0, 1), hs("keys", 0), hs("values", 0), hs("lookup", 0, 2, 4), hs("lookup", 0, 3, 4), hs("merge", 0, 5), hs("keys", 1), hs("merge", 1, 0), hs("values", 0), hs("merge", 0, 1)}},
+		{[]cty.Value{mV("a", sV("x")), oV("b", nI(1)), mV("c", sV("y")), sV("b"), sV("d")},
+			[]histStep{hs("merge", 0, 1, 2), hs("keys", 0), hs("length", 0), hs("lookup", 0, 3, 4), hs("values", 1), hs("merge", 1, 0), hs("keys", 1), hs("merge", 0, 2), hs("merge", 0, 1, 2)}},
+		// the shared empty object and empty tuple
+		{[]cty.Value{cty.EmptyObjectVal, mV("a", sV("x")), oV("b", cty.True), sV("a"), sV("d")},
+			[]histStep{hs("merge", 0, 1), hs("keys", 0), hs("values", 0), hs("lookup", 0, 3, 4), hs("merge", 0, 2), hs("keys", 0), hs("merge", 0, 0)}},
+		{[]cty.Value{cty.EmptyTupleVal, tV(sV("a"), nI(1)), lV(sV("z"))},
+			[]histStep{hs("concat", 0, 1), hs("length", 0), hs("flatten", 0), hs("concat", 0, 2), hs("reverselist", 0), hs("setproduct", 0, 1), hs("length", 0)}},
+		// a member of a container as the argument: the container and its other members are read afterwards
+		{[]cty.Value{tV(defaults(), defaults()), overrides(), nI(0), nI(1)},
+			[]histStep{hs("element", 0, 2), hs("merge", -1, 1), hs("element", 0, 3), hs("keys", -3), hs("element", 0, 2), hs("values", -5), hs("flatten", 0)}},
+		// functions that reorder or filter: the argument list is read again
+		{[]cty.Value{unsorted(), nI(0), nI(2), sV("a")},
+			[]histStep{hs("sort", 0), hs("element", 0, 1), hs("reverselist", 0), hs("element", 0, 1), hs("distinct", 0), hs("length", 0), hs("compact", 0), hs("element", 0, 2), hs("chunklist", 0, 2), hs("slice", 0, 1, 2), hs("contains", 0, 3), hs("sort", 0), hs("element", -1, 1)}},
+		{[]cty.Value{tV(sV("b"), nI(1), sV("a")), lV(strs("x", "y", "z")...), nI(0), nI(-1)},
+			[]histStep{hs("reverselist", 0), hs("element", 0, 2), hs("concat", 0, 1), hs("element", 0, 3), hs("zipmap", 1, 0), hs("element", 0, 2), hs("flatten", 0), hs("setproduct", 0, 1), hs("length", 0), hs("reverselist", 0)}},
+		// sets: the operands of the set algebra are read again
+		{[]cty.Value{stV(strs("a", "b", "c")...), stV(strs("b", "d")...), cty.SetValEmpty(cty.DynamicPseudoType), sV("d"), sV("a")},
+			[]histStep{hs("setunion", 0, 1), hs("contains", 0, 3), hs("length", 0), hs("setsubtract", 0, 1), hs("sethaselement", 0, 4), hs("setintersection", 0, 1, 2), hs("length", 1), hs("setsymmetricdifference", 1, 0), hs("reverselist", 0), hs("setunion", 0, 2), hs("contains", 2, 3), hs("length", -1), hs("setunion", 0, 1)}},
+		{[]cty.Value{stV(nI(2), nI(1)), lV(strs("p", "q")...), nI(1)},
+			[]histStep{hs("setproduct", 0, 1), hs("reverselist", 0), hs("contains", 0, 2), hs("length", -1), hs("flatten", 0), hs("setproduct", 0, 1)}},
+		// maps
+		{[]cty.Value{mV("b", nI(2), "a", nI(1)), sV("a"), nI(9), mV("c", nI(3))},
+			[]histStep{hs("keys", 0), hs("values", 0), hs("lookup", 0, 1, 2), hs("merge", 0, 3), hs("length", 0), hs("index", 0, 1), hs("keys", 0), hs("values", -4)}},
+		// numbers
+		{[]cty.Value{nF(0), nF(1), nF(0.1), nI(3)},
+			[]histStep{hs("range", 0, 1, 2), hs("element", -1, 3), hs("range", 0, 1, 2), hs("range", 3), hs("coalesce", 2, 3)}},
+	}
+}
+
+func runFixedHistory(c *core.Ctx, idx int64, fh fixedHistory) {
+	h := &history{c: c, idx: idx, r: core.NewRand(uint64(idx))}
+	c.Begin(idx, func() string { return fmt.Sprintf("fixed history over %s", fmtArgs(fh.vals)) })
+	slots := h.enterAll(fh.vals)
+	results := map[int]slot{}
+	for i, st := range fh.steps {
+		fd := fnByName(st.fn)
+		args := make([]slot, len(st.args))
+		for j, a := range st.args {
+			switch {
+			case a >= 0:
+				args[j] = slots[a]
+			default:
+				s, ok := results[-a]
+				if !ok {
+					c.Violate("harness", "harness: a fixed history refers to a step without a compared result", "", fmt.Sprintf("history %d step %d", idx, i+1), "")
+					return
+				}
+				args[j] = s
+			}
+		}
+		n := len(h.pool)
+		if !h.callKeep(fd, args, "fixed") {
+			return
+		}
+		if len(h.pool) > n {
+			results[i+1] = h.pool[len(h.pool)-1]
+		}
+	}
 }
 
 // seqOf builds the list (kind 0) or tuple (kind 1) of the first n of "a","b",...; the
@@ -666,6 +807,27 @@ func enumerate(c *core.Ctx, base int64) {
 		}
 	}
 	c.Exhaustive("range: every start, end in -3..3 and step in -2..2 on the half-unit grid (1, 2 and 3 arguments)")
+
+	// range with decimal-fraction steps (no binary mantissa holds them: the running sums round): the end lies exactly
+	// n steps from the start in decimal arithmetic, which the rounded sums reach, overshoot or fall short of
+	decStarts := []string{"0", "0.1", "1", "-0.3"}
+	decSteps := []string{"0.1", "0.2", "0.3", "0.7", "-0.1", "-0.2", "-0.3", "-0.7"}
+	for _, a := range decStarts {
+		for _, st := range decSteps {
+			ra, _ := new(big.Rat).SetString(a)
+			rs, _ := new(big.Rat).SetString(st)
+			for n := int64(1); n <= 12; n++ {
+				re := new(big.Rat).Add(ra, new(big.Rat).Mul(rs, big.NewRat(n, 1)))
+				fa, _ := ra.Float64()
+				fe, _ := re.Float64()
+				fs, _ := rs.Float64()
+				run("range", nF(fa), nF(fe), nF(fs))
+				p := func(q *big.Rat) cty.Value { return cty.NumberVal(new(big.Float).SetPrec(512).SetRat(q)) }
+				run("range", p(ra), p(re), p(rs))
+			}
+		}
+	}
+	c.Exhaustive("range: start in {0, 0.1, 1, -0.3} x step in +-{0.1, 0.2, 0.3, 0.7} x end exactly 1..12 steps away, as float-made (53-bit) and as parsed (512-bit) numbers")
 
 	// set algebra: all pairs (and, for the variadic ones, triples) of subsets of {1,2,3}; one argument as set(string) to force unification
 	var subsN, subsS []cty.Value
